@@ -174,12 +174,13 @@ def script(rng, case, idx):
         stock = attempt('stock', lambda: C('stock', '1 L', [(water, '200 mL'), (salt, f'{rng.choice([2, 5, 10])} g')]))
         buf = attempt('buf', lambda: C('buf', initial_contents=[(dmso, f'{rng.choice([20, 50])} mL'), (sulf, '1.5 g'), (lip, f'{rng.choice([5, 40])} U')]))
         empty = attempt('empty', lambda: C('empty', '52.3 mL'))
+        dilu = attempt('dilu', lambda: C('dilu', initial_contents=[(water, '150 mL'), (salt, f'{rng.choice([0.1, 0.25])} g'), (dmso, '2 mL')]))
         plate = attempt('plate', lambda: P('plate', '306.7 uL', rows=2, columns=3))
         observe('stock', stock)
         observe('buf', buf)
-        objs = {'stock': stock, 'buf': buf, 'empty': empty}
+        objs = {'stock': stock, 'buf': buf, 'empty': empty, 'dilu': dilu}
         for step in range(rng.randint(6, 14)):
-            k = rng.choice(['cc', 'cc', 'cp', 'pc', 'solution', 'solution_c', 'from', 'dilute', 'fill', 'remove', 'pfill', 'premove', 'pp'])
+            k = rng.choice(['cc', 'cc', 'cp', 'pc', 'solution', 'solution_c', 'from', 'from_c', 'dilute', 'fill', 'remove', 'pfill', 'premove', 'pp'])
             lab = f's{step}.{k}'
             names = [n for n, o in objs.items() if o is not None]
             if k == 'cc' and len(names) >= 2:
@@ -232,6 +233,14 @@ def script(rng, case, idx):
                 if r:
                     objs['stock'], objs[f'dil{step}'] = r
                     observe(lab, r[1])
+            elif k == 'from_c' and objs.get('stock') is not None and objs.get('dilu') is not None:
+                # a diluent container that already holds some of the solute
+                r = attempt(lab, lambda: C.create_solution_from(objs['stock'], salt, rng.choice(['0.05 M', '2 g/L', '0.2 %w/w']), objs['dilu'],
+                                                                uq(rng.choice(['10 mL', '5 g', '0.3 mol']), step), f'dilc{step}'))
+                if r:
+                    objs['stock'], objs['dilu'], objs[f'dilc{step}'] = r
+                    observe(lab, r[2])
+                    observe(lab + '.diluent', r[1])
             elif k == 'dilute' and objs.get('stock') is not None:
                 r = attempt(lab, lambda: objs['stock'].dilute(salt, rng.choice(['0.02 M', '0.5 g/L', '0.01 mol/kg', '3 M']), water))
                 if r:
